@@ -167,8 +167,10 @@ where O: Sized{bounds}
 """
 
 
-def kinds_def(t):
-    """run_case: build the wrapped object of the requested container kind and drive it."""
+def kinds_def(t, lite=False):
+    """run_case: build the wrapped object of the requested container kind and drive it.
+    lite: without the by-name vtable getters (a module whose full form the current tree rejects
+    is retried this way, so that what its methods *do* is still checked)"""
     T = t.name
     arms = []
     getters = ", ".join(f"vt.{m.name}() as usize" for m in t.exported())
@@ -176,8 +178,8 @@ def kinds_def(t):
 
     def build(expr):
         # what trait_obj! does, in two steps, with the C04 oracles in between
-        return (f"let c = {{ use cglue::from2::From2; {T}Base::from2({expr}) }}; let o = into_opaque_checked(c)?;"
-                f" {{ let vt = o.get_vtbl(); vtable_words_check(vt as *const _ as *const usize, ::core::mem::size_of_val(vt), &[{getters}], \"{T}\")?; }}")
+        vt = "" if lite else f" {{ let vt = o.get_vtbl(); vtable_words_check(vt as *const _ as *const usize, ::core::mem::size_of_val(vt), &[{getters}], \"{T}\")?; }}"
+        return f"let c = {{ use cglue::from2::From2; {T}Base::from2({expr}) }}; let o = into_opaque_checked(c)?;" + vt
 
     for i, k in enumerate(t.kinds()):
         if k == "box":
@@ -260,8 +262,8 @@ impl Imp {
 """
 
 
-def module_src(t):
-    return "\n".join([HEADER, trait_def(t), imp_struct(), impl_def(t), driver_def(t), kinds_def(t)])
+def module_src(t, lite=False):
+    return "\n".join([HEADER, trait_def(t), imp_struct(), impl_def(t), driver_def(t), kinds_def(t, lite)])
 
 
 # ---------------------------------------------------------------------------------------------
